@@ -646,15 +646,19 @@ def execute(case, tmp, full_every=False):
         base_n = case.get('base_n', 0) if kind == 'demo' else 0
         if kind == 'demo' and base_n == 0:
             real.wrap_demo()
+        begun = None
         for ti, txn in enumerate(txns):
-            aborted = _run_txn(kind, txn, real, h, run, touched)
+            nxt = None
+            if txn.get('overlap') and ti + 1 < len(txns) and not (kind == 'demo' and ti + 1 <= base_n):
+                nxt = txns[ti + 1]
+            aborted, begun = _run_txn(kind, txn, real, h, run, touched, begun=begun, overlap_next=nxt)
             if kind == 'demo' and ti + 1 == base_n:
                 real.wrap_demo()
             last = ti + 1 == len(txns)
             if not (kind == 'demo' and ti + 1 < base_n):
                 _queries(kind, real, h, api, run, rq, last or full_every, touched)
             mode = txn.get('reopen')
-            if mode and kind == 'fs':
+            if mode and kind == 'fs' and begun is None:
                 run.add('reopen', real.reopen(mode), 'ok')
                 run.count('reopen:' + mode)
                 _queries(kind, real, h, api, run, rq, last or full_every, touched)
@@ -688,29 +692,40 @@ def _queries(kind, real, h, api, run, rq, full, touched):
     run.count('queries', len(rs))
 
 
-def _run_txn(kind, txn, real, h, run, touched):
-    """returns True when the transaction ended aborted"""
+def _begin_args(kind, txn, ltid):
     u, d, e = mk_bytes(txn['u']), mk_bytes(txn['d']), mk_bytes(txn['e'])
     status = txn.get('status', ' ') if kind == 'fs' else ' '
     if txn['tid'][0] == 'x':
-        tid = h.ltid() + txn['tid'][1]
+        tid = ltid + txn['tid'][1]
         if tid & 0xffffffff == 0xffffffff:
             tid += 1
         tid = min(tid, MAXTID - 2)
-        robs = real.begin(tid, None, status, u, d, e)
-        line = 'begin t:%s %d %s %s %s' % (hx(tid), ord(status), tok(u), tok(d), tok(e))
-        mline = 'm.begin t:%s %s %s %s' % (hx(tid), tok(u), tok(d), tok(e))
-        run.count('begin:explicit')
+        now = None
+        t = 't:' + hx(tid)
     else:
-        now = txn['tid'][1]
-        robs = real.begin(None, now, status, u, d, e)
-        line = 'begin n:%s %d %s %s %s' % (hx(now_raw(now)), ord(status), tok(u), tok(d), tok(e))
-        mline = 'm.begin n:%s %s %s %s' % (hx(now_raw(now)), tok(u), tok(d), tok(e))
-        run.count('begin:clock')
+        tid, now = None, txn['tid'][1]
+        t = 'n:' + hx(now_raw(now))
+    return dict(tid=tid, now=now, status=status, u=u, d=d, e=e,
+                line='begin %s %d %s %s %s' % (t, ord(status), tok(u), tok(d), tok(e)),
+                mline='m.begin %s %s %s %s' % (t, tok(u), tok(d), tok(e)))
+
+
+def _run_txn(kind, txn, real, h, run, touched, begun=None, overlap_next=None):
+    """one transaction.  `begun` = (args, observation) when its tpc_begin was already entered by a
+    second thread while the previous transaction was in progress; `overlap_next` = the next
+    transaction, whose tpc_begin is to be entered that way before this one finishes.
+    Returns (aborted, begun-for-the-next-transaction | None)."""
+    if begun is None:
+        a = _begin_args(kind, txn, h.ltid())
+        robs = real.begin(a['tid'], a['now'], a['status'], a['u'], a['d'], a['e'])
+    else:
+        a, robs = begun
+    u, d, e, status = a['u'], a['d'], a['e'], a['status']
+    run.count('begin:explicit' if a['tid'] is not None else 'begin:clock')
     rtid = int(robs.split('tid=')[1], 16)
     toolong = kind == 'fs' and max(len(u), len(d), len(e)) > 65535
     oobs = ('err:FileStorageError' if toolong else 'ok') + ' tid=' + hx(rtid)
-    run.add(line if kind == 'fs' else mline if kind == 'map' else None, robs, oobs)
+    run.add(a['line'] if kind == 'fs' else a['mline'] if kind == 'map' else None, robs, oobs)
     run.count('meta-len:%d' % max(len(u), len(d), len(e)) if max(len(u), len(d), len(e)) in (0, 1, 65535, 65536)
               else 'meta-len:other')
     h.begin(rtid, status, u, d, e)
@@ -721,6 +736,15 @@ def _run_txn(kind, txn, real, h, run, touched):
             if r == 'abort':
                 ok = False
                 break
+    b = None
+    if overlap_next is not None:
+        # the next transaction's tpc_begin arrives now, from a second thread; it has to wait for the
+        # commit lock and must get its tid only after this transaction is finished
+        b = _begin_args(kind, overlap_next, max(rtid, h.ltid()))
+        real.begin_overlapped(b['tid'], b['now'], b['status'], b['u'], b['d'], b['e'])
+        run.count('begin:overlapped')
+        if real._holder.get('arrived'):
+            run.count('begin:overlapped:waited-for-commit-lock')
     if ok and txn.get('end', 'commit') == 'commit':
         run.add('vote' if kind == 'fs' else None, real.vote(), 'ok')
         robs = real.finish()
@@ -730,11 +754,13 @@ def _run_txn(kind, txn, real, h, run, touched):
                 robs if good else 'ok tid=<above %s>' % hx(h.ltid()))
         h.finish()
         run.count('commit')
-        return False
-    run.add({'fs': 'abort', 'map': 'm.abort'}.get(kind), real.abort(), 'ok')
-    h.abort()
-    run.count('abort')
-    return True
+        aborted = False
+    else:
+        run.add({'fs': 'abort', 'map': 'm.abort'}.get(kind), real.abort(), 'ok')
+        h.abort()
+        run.count('abort')
+        aborted = True
+    return aborted, ((b, real.begin_overlapped_join()) if b is not None else None)
 
 
 def _run_op(kind, op, real, h, run, tid, touched):
@@ -1045,6 +1071,14 @@ def gen_case(rng, kind, thorough=False):
         if kind == 'fs' and rng.random() < 0.22:
             t['reopen'] = rng.choice(['keep', 'drop'])
         txns.append(t)
+    # now and then the next transaction's tpc_begin is entered by a second thread while this one is
+    # still in progress, with a clock that has not moved (or has stepped back) in between
+    for i in range(ntx - 1):
+        if rng.random() < 0.1:
+            txns[i]['overlap'] = True
+            a = txns[i]['tid']
+            base = a[1] if a[0] == 'c' else now
+            txns[i + 1]['tid'] = ['c', max(base + rng.choice([0.0, 0.0, 0.0, -5.0, 1e-9, 2.0]), 1.0)]
     case = dict(kind=kind, txns=txns, qseed=rng.randrange(10 ** 6))
     if thorough and rng.random() < 0.2:
         case['full'] = True          # every oid x every tid boundary after EVERY transaction
@@ -1208,7 +1242,13 @@ def main(argv=None):
             'TimeStamp.laterThan(o) = o + 1 on the raw value (differs only when the low 32 bits are all '
             'ones; avoided by the generator)',
             'float -> TimeStamp conversion of the clock is runtime (the model receives the raw value)',
-            'byte-level encoding of Data.fs is C01\'s model; here offsets/_pos/index are compared [I]'])
+            'byte-level encoding of Data.fs is C01\'s model; here offsets/_pos/index are compared [I]',
+            'getTid follows the code (stated in History.getTid): POSKeyError only when the newest record '
+            'ITSELF is an un-creation / deletion marker; when the newest record is a back pointer whose '
+            'chain ends in one, load/loadBefore raise POSKeyError but getTid answers that record\'s tid '
+            '(reproducer: corpus/C16/repro_gettid_uncreated_via_backpointer.py; kept as is by decision)',
+            'concurrency is covered only by one scripted interleaving per overlapped pair (a second '
+            'thread enters tpc_begin while the commit lock is held); schedules in general are C02/C03'])
 
 
 if __name__ == '__main__':
